@@ -1231,7 +1231,7 @@ class Manifest:
         """A list of top level folders in the package/instance directory"""
 
         # VV: manifest can include keys which describe nested folders. Extract the left-most folders out of such keys
-        return [x.split(os.path.pathsep, 1)[0] for x in self._manifest]
+        return [x.split(os.path.sep, 1)[0] for x in self._manifest]
 
     def validate(self):
         """Validates contents of manifest dictionary
